@@ -495,9 +495,15 @@ func buildReport(id string, w *World, opts *RunOpts, results []*FuncResult, all 
 		}
 	}
 	for _, r := range results {
+		if r.Missing && len(r.Con.clauses("ensures")) == 0 && len(r.Con.clauses("requires")) == 0 {
+			continue
+		}
 		if r.Missing {
 			undecided = append(undecided, r.Con.Func+": target function not found in /repo (contract undecided)")
 			rep.lines = append(rep.lines, "UNDECIDED: "+r.Con.Func+" not found; its obligations are not checked")
+			continue
+		}
+		if r.SweepOnly {
 			continue
 		}
 		if r.Assumed {
